@@ -1228,7 +1228,8 @@ func (e *Entry) ApplyDeviate(deviateOpts ...DeviateOpt) []error {
 						deviatedNode.ListAttr.MaxElements = devSpec.ListAttr.MaxElements
 					}
 
-					if devSpec.Units != "" {
+					// units ""; is a units statement too.
+					if dn, ok := devSpec.Node.(*Deviate); devSpec.Units != "" || (ok && dn.Units != nil) {
 						deviatedNode.Units = devSpec.Units
 					}
 
